@@ -124,7 +124,8 @@ class Run(object):
         size = float(tt.ranks[0]) * float(tt.ranks[-1])
         for a, b in zip(tt.row_dims, tt.col_dims):
             size *= float(a) * float(b)
-        return size * max(1, max(tt.ranks)) > 4 * MAX_DENSE or max(tt.ranks) > MAX_RANK_STORE
+        # the dense snapshot has 2*order+2 axes; NumPy arrays are limited to 64 (32 before NumPy 2) dimensions
+        return size * max(1, max(tt.ranks)) > 4 * MAX_DENSE or max(tt.ranks) > MAX_RANK_STORE or tt.order > 12
 
     def _store(self, dest, tt, prov, ancestors=frozenset()):
         if self._too_big(tt):
@@ -829,6 +830,11 @@ def _tt2qtt():
             n = max(len(fr), len(fc))
             fr = fr + [1] * (n - len(fr))
             fc = fc + [1] * (n - len(fc))
+            while ctx.rnd.random() < 0.3 and len(fr) < 4:
+                # a trivial (1 x 1) factor in front, in the middle or at the end: splits off a mode-free QTT core
+                k = ctx.rnd.randint(0, len(fr))
+                fr = fr[:k] + [1] + fr[k:]
+                fc = fc[:k] + [1] + fc[k:]
             rows.append(fr)
             cols.append(fc)
         return {"op": "tt2qtt", "in": {"self": a}, "dest": ctx.dest(1),
